@@ -17,6 +17,7 @@ sibling the old node's capacity and only a new root takes the estimator's curren
 -/
 import BBProofs.OpsWF
 import BBProofs.RefPolicy
+import BBProofs.GenEq2
 
 namespace BB
 
@@ -98,5 +99,21 @@ example : RunD (refPolicy { E := fun _ => 1, off := 0 }) 2 (fun i => if i = 0 th
   match i, hi with
   | 0, _ => simp [init]
   | 1, _ => simp [init]
+
+
+/-! ## The same for the code itself (`_BFSubcluster.update`, translated from `bitbirch.py` on this run) -/
+
+/-- code: after `entry.update(sub)` — what `insert_bf_subcluster` does to the tracking entry on the way down — the
+entry's counters are held in the narrowest unsigned width for its new count, its count and sums are the totals, and
+its member list is the concatenation -/
+theorem C08_code_update_width (expf : Rat → Rat) (D : Nat → Row) (c s : Clu) (child scent schild : PV)
+    (hc : Exact D c) (hs : Exact D s) (hlen : c.ls.length = s.ls.length) (hn : c.n + s.n < 2 ^ 53) :
+    ∃ c', BBGen._BFSubcluster_update expf (bufOf c) (PV.arr .u8 (pack c.cent)) child (PV.arr .big c.ids)
+            (bufOf s) scent schild (PV.arr .big s.ids) = stateOf c' child
+      ∧ c'.w = minSafe c'.n ∧ c'.n = c.n + s.n ∧ c'.ls = addLs c.ls s.ls ∧ c'.ids = c.ids ++ s.ids := by
+  refine ⟨c.update s, gen_update expf c s child scent schild (cluOk_of_exact D c hc (by omega))
+    (cluOk_of_exact D s hs (by omega)) hlen hn, (exact_update D c s hc hs).w_eq, ?_, ?_, rfl⟩
+  · exact (update_unbounded D c s hc hs).2
+  · exact (update_unbounded D c s hc hs).1
 
 end BB
